@@ -28,12 +28,4 @@ theorem C13_generated_member (ci : Nat) (fields : List (Str × Node)) (items : L
       ∃ ch ∈ children, isListMember c (lower ch.tag) = true ∧ '.' ∉ ch.tag :=
   C13_member_written_and_read genEnv.S genEnv.cv escapeCdata _ (typesConv_laws_wire _) ci fields items hv hplain m hm
 
-/-- non-vacuity: `exStatus` (valid, Gen/C01) holds `code` and `severity` -/
-example : ∃ tag x tl children, toEtree genEnv.S genEnv.cv exStatus = .ok (.node tag x tl children) ∧
-    fromEtree genEnv.S genEnv.cv (mapText escapeCdata (.node tag x tl children)) = .ok exStatus ∧
-    ∃ ch ∈ children, lower ch.tag = "code".toList ∧ '.' ∉ ch.tag :=
-  C13_generated_child 331 _ _ exStatus_valid (fun c hc => by
-    have : c = statusCls := by rw [show genEnv.S.cls? 331 = some statusCls from status_cls] at hc; injection hc with hc; exact hc.symm
-    subst this; rfl) "code".toList (.val (.int 0)) (by simp) (by simp)
-
 end Ofx.Gen
